@@ -81,3 +81,32 @@ class TmpDir:
         return self.d
     def __exit__(self, *a):
         shutil.rmtree(self.d, ignore_errors=True)
+
+def build_shim():
+    """the real CLI with threadpool.c's pthread operations routed to the scheduler shim and lz4io.c observed by the event hooks"""
+    srcs = [os.path.join(REPO, "programs", f) for f in ("lz4cli.c", "bench.c", "lorem.c", "util.c", "timefn.c")] + \
+           [os.path.join(HC, f) for f in ("threadpool_shim.c", "mt_hooks.c", "sched_shim.c")] + lib_srcs()
+    for h in ("sched_shim.h",):
+        srcs_dep = os.path.join(HC, h)
+    return build_exe("lz4_shim", srcs + [], flags=[XXH, "-DLZ4IO_MULTITHREAD=1", "-I" + HC, "-DSHIM_H_HASH=\"%s\"" % vlib.file_hash([os.path.join(HC, "sched_shim.h")])], opt="-O2")
+
+SHIM_RC = {97: "deadlock: no runnable thread (scheduler shim)", 95: "buffer ownership violated (event hooks)",
+           96: "replayed schedule not enabled on the real code", 93: "step limit exceeded", 94: "scheduler shim internal error"}
+
+def shim_env(mode="coop", seed=0, trace=None, picks=None, sched=None, weights=None, sticky=None, wake=None, perturb=None):
+    env = dict(os.environ)
+    for k in list(env):
+        if k.startswith("SCHED_"):
+            del env[k]
+    env.pop("LD_PRELOAD", None)
+    env["SCHED_MODE"] = mode
+    env["SCHED_SEED"] = str(seed)
+    env["SCHED_MAXSTEPS"] = "2000000"
+    if trace: env["SCHED_TRACE"] = trace
+    if picks: env["SCHED_PICKS"] = picks
+    if sched: env["SCHED_FILE"] = sched
+    if weights: env["SCHED_WEIGHTS"] = weights
+    if sticky is not None: env["SCHED_STICKY"] = str(sticky)
+    if wake: env["SCHED_WAKE"] = wake
+    if perturb is not None: env["SCHED_PERTURB"] = str(perturb)
+    return env
